@@ -555,8 +555,21 @@ def run_ct(spec):
     except Exception as e:
         vs.append(V("ct-roundtrip", "parse-raises", "_make_content_type(%r) raised %r" % (text, e)))
         return Case(vs, len(spec["params"]) >= 2, ["raises"])
-    if back != ct:
+    if back != ct or (back.type, back.subtype, dict(back.parameters)) != (spec["type"], spec["subtype"], dict(spec["params"])):
+        # (compared field by field as well: the tree's own __eq__ is under test too)
         vs.append(V("ct-roundtrip", "differs", "%r -> %r/%r %r" % (text, back.type, back.subtype, back.parameters)))
+    # equality is equality of type, subtype and every parameter: each single difference makes two types unequal
+    variants = [("type", ContentType(spec["type"] + "x", spec["subtype"], dict(spec["params"]))),
+                ("extra-parameter", ContentType(spec["type"], spec["subtype"], dict(spec["params"], zzextra="1")))]
+    for k in list(spec["params"])[:2]:
+        variants.append(("parameter-value", ContentType(spec["type"], spec["subtype"], dict(spec["params"], **{k: spec["params"][k] + "x"}))))
+        fewer = dict(spec["params"])
+        del fewer[k]
+        variants.append(("missing-parameter", ContentType(spec["type"], spec["subtype"], fewer)))
+    for what, other_ct in variants:
+        if ct == other_ct or other_ct == ct or not (ct != other_ct):
+            vs.append(V("ct-roundtrip", "eq-" + what, "content types differing in %s compare equal: %r / %r" % (what, ct, other_ct)))
+            break
     if not (ct == ContentType(spec["type"], spec["subtype"], dict(spec["params"]))):
         vs.append(V("ct-roundtrip", "eq", "structurally equal content types compare unequal"))
     other = ContentType(spec["type"], spec["subtype"] + "x", dict(spec["params"]))
